@@ -215,4 +215,47 @@ def mxpSim (w : Nat) (a b d e m : Int) : Option Int :=
     let t := simTab M a d bN eN
     some (M.back (simLoop M t.2.1 t.2.2.1 t.2.2.2 bN eN (max (Rec.bitLen bN) (Rec.bitLen eN)) t.1))
 
+/-! ### bn_mxp_sim_few for general n -/
+
+/-- one round of the table construction: t[star] = a (Montgomery form), t[star + j] = t[star]·t[j] for 0 < j < star — only when the
+    exponent is non-zero; otherwise the 2^i entries keep the value of a fresh bn (0) -/
+def fewBlock (M : Mont) (tab : List Int) (a : Int) (b : Nat) : List Int :=
+  if b ≠ 0 then
+    let ts := M.conv a
+    ts :: (tab.drop 1).map (fun x => M.mul ts x)
+  else List.replicate tab.length 0
+
+def fewTab (M : Mont) : List Int → List (Int × Nat) → List Int
+  | tab, [] => tab
+  | tab, p :: ps => fewTab M (tab ++ fewBlock M tab p.1 p.2) ps
+
+/-- parities = Σ bit(b_j, i) << j -/
+def parity : List Nat → Nat → Nat
+  | [], _ => 0
+  | b :: bs, i => (if bit b i then 1 else 0) + 2 * parity bs i
+
+def fewLoop (M : Mont) (tab : List Int) (bs : List Nat) : Nat → Int → Int
+  | 0, c => c
+  | i + 1, c =>
+    let c := M.sqr c
+    let p := parity bs i
+    fewLoop M tab bs i (if p ≠ 0 then M.mul c (tab.getD p 0) else c)
+
+def maxBits : List Nat → Nat
+  | [] => 0
+  | b :: bs => max (Rec.bitLen b) (maxBits bs)
+
+/-- bn_mxp_sim_few(c, a, b, m, n) with c = c0 before the call; ps = [(a_0, b_0), …] -/
+def mxpSimFew (w : Nat) (c0 : Int) (ps : List (Int × Int)) (m : Int) : Option Int :=
+  if m = 1 then some 0
+  else if ps.length = 0 then some c0
+  else if ps.length > 8 then none
+  else if m % 2 = 0 ∨ m ≤ 0 then none
+  else
+    let M := Mont.ofMod w m
+    let qs := ps.map fun p => (p.1, p.2.natAbs)
+    let tab := fewTab M [M.conv 1] qs
+    let bs := qs.map (·.2)
+    some (M.back (fewLoop M tab bs (maxBits bs) (tab.getD 0 0)))
+
 end Relic.Model.NtMxp
